@@ -48,23 +48,33 @@ Theorem C20_ranks_match_source :
 Proof. vm_compute. reflexivity. Qed.
 
 (* ---- per run, over the graph extracted from the sources as they are now ---- *)
-(* size of the extracted graph: functions (incl. spawned-task roots), acquisition sites, call edges *)
-Eval vm_compute in (List.length repo_graph, count_acq repo_graph, count_edges repo_graph).
+(* size of the extracted graph: functions (incl. spawned-task roots), acquisition sites, call edges;
+   then: (held shared lock, acquired shared lock) pairs compared by the checker, functions with such a pair *)
+Eval vm_compute in (List.length repo_graph, count_acq repo_graph, count_edges repo_graph, count_pairs repo_graph).
 (* every order violation the checker finds (function, held lock, site, lock acquired directly or by a
    callee, under the wasm gate?) -- an unlisted entry here is what makes [C20_repo] fail *)
 Eval vm_compute in (violations repo_graph).
-(* violations at sites that are not listed: must be empty *)
-Eval vm_compute in
-  (filter (fun v => negb (in_known known_sites (v_site v))) (violations repo_graph)).
 (* wasm exports that touch a shared lock outside the SAITO gate (non-empty => the gate is not universal,
    so violations under the gate are not excused) *)
 Eval vm_compute in (ungated repo_graph).
 (* listed sites that no longer violate (stale entries of known_sites; informational) *)
 Eval vm_compute in (stale repo_graph known_sites).
+(* listed sites that are reproduced on the sources as they are now (between the two markers in the build log) *)
+Goal True. idtac "@@C20-KNOWN-REPRODUCED-BEGIN". Abort.
+Eval vm_compute in
+  (filter (fun k => existsb (fun v => String.eqb (v_site v) k) (violations repo_graph)) known_sites).
+Goal True. idtac "@@C20-KNOWN-REPRODUCED-END". Abort.
 (* functions the translator did not link same-named calls to and that are NOT lock-free: must be empty *)
 Eval vm_compute in
   (let s := summaries repo_graph in
    map f_name (filter (fun f => existsb (Pos.eqb (f_id f)) not_linked && negb (lock_free s (f_id f))) repo_graph)).
+
+(* violations at sites that are NOT listed in LockOrder.known_sites: must be empty -- when [C20_repo]
+   below fails, the offending sites are the ones printed here *)
+Eval vm_compute in
+  (map (fun v => (v_site v, v_held v, v_acq v))
+       (filter (fun v => negb (accepted known_sites (all_gated_with (summaries repo_graph) repo_graph) v))
+               (violations repo_graph))).
 
 Theorem C20_repo : check repo_graph not_linked known_sites = true.
 Proof. vm_compute. reflexivity. Qed.
